@@ -29,27 +29,42 @@ class CaseTimeout(Exception):
     """the library did not return within the per-case watchdog (an endless loop is reported like an exception)"""
 
 
+_WATCH = {"limit": 6.0}
+
+
 def _on_alarm(signum, frame):
-    raise CaseTimeout("no result within the per-case watchdog")
-
-
-def _quiet_unraisable(unraisable):
-    if not isinstance(unraisable.exc_value, CaseTimeout):
-        sys.__unraisablehook__(unraisable)
-
-
-def guarded(mod, case):
-    """run one case under a watchdog (seconds, module attribute CASE_TIMEOUT, default 6)"""
+    """raise only while library code is the running frame (an exception raised inside a gc or
+    Hypothesis callback would be swallowed); otherwise look again shortly"""
     import signal
 
-    limit = getattr(mod, "CASE_TIMEOUT", 6.0)
-    signal.signal(signal.SIGALRM, _on_alarm)
-    signal.setitimer(signal.ITIMER_REAL, limit, 0.25)  # repeats until it lands in ordinary code
-    sys.unraisablehook = _quiet_unraisable
+    from hxv import SRC
+
+    if frame is not None and frame.f_code.co_filename.startswith(SRC):
+        signal.setitimer(signal.ITIMER_VIRTUAL, _WATCH["limit"])  # the rest of the case gets a fresh budget
+        raise CaseTimeout("no result within the per-case watchdog")
+    signal.setitimer(signal.ITIMER_VIRTUAL, 0.02)
+
+
+def _watched(mod, case, limit):
+    import signal
+
+    _WATCH["limit"] = limit
+    signal.signal(signal.SIGVTALRM, _on_alarm)
+    signal.setitimer(signal.ITIMER_VIRTUAL, limit)  # CPU seconds of this process: immune to machine load
     try:
         return mod.run_case(case)
     finally:
-        signal.setitimer(signal.ITIMER_REAL, 0)
+        signal.setitimer(signal.ITIMER_VIRTUAL, 0)
+
+
+def guarded(mod, case):
+    """run one case under a CPU-time watchdog (module attribute CASE_TIMEOUT, default 6 s).  A case
+    that trips it is run again with ten times the budget; only a repeated trip is reported."""
+    limit = getattr(mod, "CASE_TIMEOUT", 6.0)
+    res = _watched(mod, case, limit)
+    if any(v.kind == "hangs-or-runs-away" for v in res.violations):
+        res = _watched(mod, case, 10 * limit)
+    return res
 
 
 class _Abort(BaseException):
@@ -148,6 +163,8 @@ def _run_shard(prop, idx, tier, seed, t_end):
             if entry is not None:
                 st["known"][entry["id"]] += 1
                 continue
+            if v.kind == "hangs-or-runs-away":
+                st["hangs"] = st.get("hangs", 0) + 1
             size = len(json.dumps(case, default=str))
             cur = st["new"].get(sig)
             if cur is None:
@@ -158,6 +175,9 @@ def _run_shard(prop, idx, tier, seed, t_end):
                 cur["count"] += 1
                 if size < cur["size"]:
                     cur.update(case=case, detail=v.detail, size=size)
+        if st.get("hangs", 0) >= 3:  # established; every further hang costs many CPU seconds
+            st["short"] = True
+            raise _Abort()
         return res
 
     hseed = _seed_for(seed, prop, shard.name)
